@@ -57,4 +57,4 @@ def exc_name(e: BaseException) -> str:
     for cls in (ValueError, OSError, TypeError, IndexError, RuntimeError):
         if isinstance(e, cls):
             return cls.__name__
-    return type(e).__name__
+    return "Other"
